@@ -1,6 +1,6 @@
 (** C01, source-derived leakage model: NONINTERFERENCE of the instrumented kernels.
 
-    tools/rs2v_leak.py re-reads /repo's CURRENT source text on every run and writes, for each of the 135 kernels that
+    tools/rs2v_leak.py re-reads /repo's CURRENT source text on every run and writes, for each of the 219 kernels that
     tools/rs2v.py ties to the models, an instrumented definition [l_f args : result * list Z] (Src/Leak*.v): the value and the list
     of leakage events of a source-level execution (Model/LeakPrelude.v: [ev_br] conditions, [ev_ix] indices, [ev_div] /
     [ev_divc] division operands, [ev_trip] trip counts; mask / select / arithmetic primitives emit nothing).
